@@ -437,6 +437,8 @@ func runC03(c *Ctx) {
 	// an imported key keeps its scope's address format when its row is loaded again (C08-R3's sibling-agreement rule)
 	checkImportPathsAgreeOnSchemaField(c, "C03-R5")
 	checkPubPrivSlotsAreTwins(c, "C03-R1")
+	checkEncryptedKeyOnlyClearedByConversion(c, "C03-R3")
+	checkSchemaPresenceIsNilness(c, "C03-R5")
 	// an import that runs while the manager is locked seals the key under the wiped (all-zero) crypto key: it is handed
 	// back for as long as the object lives and is lost at the next lock (C05-R1's gating rule, for the import paths)
 	c.Borrow(func(c2 *Ctx) { checkLockGating(c2, "C03-R3") }, "C03-R3", "C03-R3", func(k string) bool {
